@@ -84,7 +84,7 @@ structure Spawn where
 deriving DecidableEq, Repr
 
 /-- consumers with different callees receive different children, every index is in range,
-    nobody receives the un-spawned parent, and there are at least two consumers to separate -/
+    and nobody receives the un-spawned parent -/
 def Spawn.separated (sp : Spawn) : Bool :=
   sp.consumers.all (fun a =>
     (match a.child, sp.n with
@@ -92,7 +92,6 @@ def Spawn.separated (sp : Spawn) : Bool :=
       | some _, none => true
       | none, _ => false) &&
     sp.consumers.all (fun b => a.callee == b.callee || a.child != b.child))
-  && decide (2 ≤ sp.consumers.length)
 
 /-! ## Semantics -/
 
